@@ -76,6 +76,9 @@ func RuleNames(t *rapid.T, n int, prefix string) []string {
 			default:
 				nm = base + sf
 			}
+		} else if prefix == "" && rapid.IntRange(0, 7).Draw(t, "rname_like_fact") == 0 {
+			// a rule named like a fact of the data context (rule names and fact names are separate name spaces)
+			nm = []string{"F", "J", "N", "TS", "G", "Q"}[rapid.IntRange(0, 5).Draw(t, "rname_fact")]
 		} else {
 			a := ruleNameParts[rapid.IntRange(0, len(ruleNameParts)-1).Draw(t, "rname_a")]
 			b := rapid.IntRange(0, 99).Draw(t, "rname_b")
